@@ -50,22 +50,22 @@ theorem c19_roundtrip (t : Int) (h0 : 0 ≤ t) (h1 : t ≤ maxInstant) (f : Fmt)
     cases short with
     | false =>
       refine ⟨fmtIso (gmtime t), _, ?_, iso_ext_any t h0 h1 84 (Or.inl rfl) [90] 0 (parseIsoZone_Z 90 [] (Or.inl rfl)) (by simp) pf hpf, ?_⟩
-      · simp [formatUtc, formatText, initEpochSecs, mkDateTime, fmtIso, fmtIsoBody, l1]
+      · simp [formatUtc, formatTextGen_eq, formatText, initEpochSecs, mkDateTime, fmtIso, fmtIsoBody, l1]
       · simp [mkDateTime]
     | true =>
       refine ⟨fmtIsoShort (gmtime t), _, ?_, iso_ext_short t h0 h1 pf hpf, ?_⟩
-      · simp [formatUtc, formatText, initEpochSecs, mkDateTime, l3]
+      · simp [formatUtc, formatTextGen_eq, formatText, initEpochSecs, mkDateTime, l3]
       · simp [mkDateTime]
   | iso8601Basic =>
     have hpf := hr2 (by simp)
     cases short with
     | false =>
       refine ⟨fmtBasic (gmtime t), _, ?_, iso_basic_any t h0 h1 84 (Or.inl rfl) [90] 0 (parseIsoZone_Z 90 [] (Or.inl rfl)) (by simp) pf hpf, ?_⟩
-      · simp [formatUtc, formatText, initEpochSecs, mkDateTime, fmtBasic, fmtBasicBody, l2]
+      · simp [formatUtc, formatTextGen_eq, formatText, initEpochSecs, mkDateTime, fmtBasic, fmtBasicBody, l2]
       · simp [mkDateTime]
     | true =>
       refine ⟨fmtBasicShort (gmtime t), _, ?_, iso_basic_short t h0 h1 pf hpf, ?_⟩
-      · simp [formatUtc, formatText, initEpochSecs, mkDateTime, l4]
+      · simp [formatUtc, formatTextGen_eq, formatText, initEpochSecs, mkDateTime, l4]
       · simp [mkDateTime]
   | rfc822 =>
     have hpf := hr1 rfl
@@ -77,7 +77,7 @@ theorem c19_roundtrip (t : Int) (h0 : 0 ≤ t) (h1 : t ≤ maxInstant) (f : Fmt)
         rfc_any t h0 h1 [71, 77, 84] hz (by simp) (by simp) (by decide) pf hpf, ?_⟩
       · have e : fmtRfc822 (gmtime t) = fmtRfc822Body (gmtime t) ++ [71, 77, 84] := by
           simp [fmtRfc822, fmtRfc822Body]
-        simp [formatUtc, formatText, initEpochSecs, mkDateTime, e, l5]
+        simp [formatUtc, formatTextGen_eq, formatText, initEpochSecs, mkDateTime, e, l5]
       · have : rfcOffset [71, 77, 84] = 0 := by decide
         simp [mkDateTime, this]
 
@@ -89,7 +89,7 @@ theorem c19_rfc822_short_unparseable (t : Int) (h0 : 0 ≤ t) (h1 : t ≤ maxIns
   unfold maxInstant at h1
   obtain ⟨l1, l2, l3, l4, l5, l6⟩ := text_lengths t h0 h1 84
   refine ⟨fmtRfc822Short (gmtime t), ?_, rfc_short_refused t h0 h1 pf⟩
-  simp [formatUtc, formatText, initEpochSecs, mkDateTime, l6]
+  simp [formatUtc, formatTextGen_eq, formatText, initEpochSecs, mkDateTime, l6]
 
 /-- concrete witness of the above: "Thu, 01 Jan 1970" -/
 theorem c19_rfc822_short_witness :
@@ -190,18 +190,20 @@ theorem c19_epoch_views :
       1000 * dt.timestamp.toNat + dt.millis < u64 → asMillis dt = 1000 * dt.timestamp.toNat + dt.millis := by
     intro dt h0 _ hfit
     unfold asMillis
-    rw [toU64_nonneg _ h0 (by omega), convert_up _ _ (by omega)]
+    rw [toU64_nonneg _ h0 (by omega), show Gen.Date.asMillisSecs = (1, 1000, false) from rfl, conv_up _ _ (by omega) (by omega)]
     exact Nat.mod_eq_of_lt hfit
   refine ⟨fun dt h0 hms => ⟨key dt h0 hms, ?_⟩, ?_⟩
   · intro hfit
     rw [key dt h0 hms (by omega)]
     unfold asNanos
-    rw [toU64_nonneg _ h0 (by omega), convert_up _ _ (by omega), convert_ms_ns _ hms]
+    rw [toU64_nonneg _ h0 (by omega), show Gen.Date.asNanosSecs = (1, 1000000000, false) from rfl,
+      show Gen.Date.asNanosMillis = (1000, 1000000000, false) from rfl, conv_up _ _ (by omega) (by omega), conv_ms_ns _ hms]
+    show (1000000000 * dt.timestamp.toNat + 1000000 * dt.millis) % u64 = _
     rw [Nat.mod_eq_of_lt (by omega)]
     omega
   · intro m hm
     have e : initEpochMillis m = mkDateTime ((m / 1000 : Nat) : Int) (m % 1000 % 65536) false [] := by
-      simp [initEpochMillis, convert_down m hm]
+      simp [initEpochMillis, show Gen.Date.initMillis = (1000, 1, true) from rfl, conv_down m hm]
     have e2 : m % 1000 % 65536 = m % 1000 := by omega
     rw [e, e2]
     refine ⟨rfl, rfl, ?_⟩
@@ -213,6 +215,20 @@ theorem c19_epoch_views :
 theorem c19_nanos_saturation_witness :
     asNanos { timestamp := 20000000000, millis := 1 } = 999999 ∧
     asMillis { timestamp := 20000000000, millis := 1 } = 20000000000001 := by
+  decide
+
+theorem c19_gen_formatters (tm : Tm) (f : Fmt) (short : Bool) : formatTextGen tm f short = formatText tm f short :=
+  formatTextGen_eq tm f short
+
+theorem c19_gen_month_table : ∀ m : Fin 12, monthNumber (monthName (m.val : Int) ++ [32]) = some m.val := monthTable_ok
+
+theorem c19_gen_constants :
+    Gen.Date.tzMaxChars + 1 ≤ Gen.Date.tzBufSize ∧ Gen.Date.offsetZoneLen ≤ Gen.Date.tzMaxChars ∧
+    Gen.Date.rfcYear4Digits = 4 ∧ Gen.Date.rfcYear4Sub = 1900 ∧
+    Gen.Date.rfcYear2Digits = 2 ∧ Gen.Date.rfcYear2Add - Gen.Date.rfcYear2Sub + 1900 = 2000 ∧
+    Gen.Date.isoYearSub = 1900 ∧ 29 ≤ Gen.Date.AWS_DATE_TIME_STR_MAX_LEN ∧
+    Gen.Date.asMillisSecs = (1, 1000, false) ∧ Gen.Date.asNanosSecs = (1, 1000000000, false) ∧
+    Gen.Date.asNanosMillis = (1000, 1000000000, false) ∧ Gen.Date.initMillis = (1000, 1, true) := by
   decide
 
 end AwsVerif.Proofs.C19.Main
